@@ -246,10 +246,16 @@ struct Scen {
 
     // <seed, cyc> -> definition. cyc selects <integrator, feature combination> deterministically (all pairs are
     // visited over 10*13 consecutive values); forceInteg >= 0 overrides the integrator (noise scenarios).
-    void build(uint64_t seed, long cyc, const ScenKnobs& kn, int forceInteg = -1) {
-        bSeed = seed; bCyc = cyc; bInteg = forceInteg;
+    // cousin > 0: the same tree (same nq, nu, nz-free shape, same bodies) but everything else -- forces, constraints,
+    // prescribed motion, handlers -- drawn from another stream and another feature combination that always has
+    // constraints: a neighbour of identical *shape* and different *content*, the worst case for any hidden
+    // workspace that is sized by nq/nu/nb and survives from one System's call to the next.
+    int bCousin = 0;
+    void build(uint64_t seed, long cyc, const ScenKnobs& kn, int forceInteg = -1, int cousin = 0) {
+        bSeed = seed; bCyc = cyc; bInteg = forceInteg; bCousin = cousin;
         Rng r(seed);
         feats = FEAT_COMBOS[cyc % N_FEAT_COMBOS];
+        if (cousin > 0) { static const unsigned CF[] = {FE_Cons, FE_Cons | FE_Motion, FE_Cons | FE_Events}; feats = CF[(cousin - 1) % 3]; }
         io.kind = forceInteg >= 0 ? forceInteg : (int)(cyc % IK_Count);
         GenOpts go; go.minBodies = 2; go.maxBodies = kn.maxBodies; go.forceCycle = false; go.pLoneParticle = 0.03;
         ModelDesc md = randomDesc(r, go, cyc);
@@ -257,6 +263,7 @@ struct Scen {
         uint64_t quSeed = r.next();
         probe(md, quSeed);
         m.build(md);
+        if (cousin > 0) r = Rng(mix(seed, 7700 + (uint64_t)cousin));
         m.forces.setNumberOfThreads(1);
         int nb = (int)m.bodies.size(), NU = pr.u.size(), NQ = pr.q.size();
         featKey = "tree+forces";
@@ -461,7 +468,7 @@ struct Scen {
         }
         CableSpring(m.forces, *paths.back(), r.uni(5, 200), std::max(0.01, L * r.uni(0.5, 1.2)), r.uni(0, 0.5));
     }
-    Json toJson() const { char b[40]; snprintf(b, sizeof b, "%llu", (unsigned long long)bSeed); return Json::obj().set("model", descr).set("T", T).set("nReports", nReports).set("options", io.toJson()).set("scen_seed", std::string(b)).set("scen_cyc", bCyc).set("scen_integ", bInteg); }
+    Json toJson() const { char b[40]; snprintf(b, sizeof b, "%llu", (unsigned long long)bSeed); return Json::obj().set("model", descr).set("T", T).set("nReports", nReports).set("options", io.toJson()).set("scen_seed", std::string(b)).set("scen_cyc", bCyc).set("scen_integ", bInteg).set("cousin", bCousin); }
 };
 
 // ------------------------------------------------------------------------------------------------ one incremental run
